@@ -41,6 +41,7 @@ func main() {
 	part := fs.Int("part", 0, "windows: which slice of the experiment matrix")
 	parts := fs.Int("parts", 1, "windows: number of slices")
 	clients := fs.Int("clients", 3, "conc: client goroutines")
+	sconc := fs.Int("sconc", 0, "simple/kvs: concurrent clients (0 = sequential driver)")
 	access := fs.Bool("access", false, "conc: record lock events and inode accesses instead of the history")
 	sizesFlag := fs.String("sizes", "", "layout: disk sizes, e.g. 1536-1600,32760-32776 (increasing)")
 	fillFlag := fs.String("fill", "", "layout: sizes to fill completely")
@@ -112,7 +113,14 @@ func main() {
 		seg := 0
 		for i := 0; i < *nseg; i++ {
 			cfg := drv.SmallCfg{Seed: *seed*1000 + i, Ops: *steps, Crash: *crashMode, Loss: *loss, Avoid: avoidSet(*avoid), DiskSz: *disk}
-			if cmd == "simple" {
+			if *sconc > 1 {
+				cc := drv.SmallConcCfg{Seed: cfg.Seed, Clients: *sconc, OpsPer: *steps, Crash: *crashMode, Loss: *loss, DiskSz: *disk}
+				if cmd == "simple" {
+					seg = drv.RunSimpleConc(cc, t, seg)
+				} else {
+					seg = drv.RunKvsConc(cc, t, seg)
+				}
+			} else if cmd == "simple" {
 				seg = drv.RunSimple(cfg, t, seg)
 			} else {
 				seg = drv.RunKvs(cfg, t, seg)
